@@ -205,20 +205,23 @@ def run_de2_maps(rng, obs):
     import mystic.strategy as ST
     def cost(x):                    # plain module-level-free function: must work in forked children and threads
         return raw([float(v) for v in x])
-    def run(mapname, zoo):
+    def run(mapname, zoo, swap_at=None):
         random.seed(obs.seed); np.random.seed(obs.seed % (2 ** 32))
         s = DifferentialEvolutionSolver2(dim, NP)
         s.SetRandomInitialPoints([-3.0] * dim, [3.0] * dim)
         if box: s.SetStrictRanges(list(box['lo']), list(box['hi']))
         if cons: s.SetConstraints(K.make_constraint(cons))
         s.SetEvaluationLimits(10 ** 6, 10 ** 8); s.SetTermination(ChangeOverGeneration(-1.0, 10 ** 6))
-        if mapname != 'default': s.SetMapper(getattr(zoo, mapname))
+        first = 'serial' if swap_at is not None else mapname
+        if first != 'default': s.SetMapper(getattr(zoo, first))
         if evalmon:
             from mystic.monitors import Monitor
             s.SetEvaluationMonitor(Monitor())
         s.SetObjective(cost)
         out = []
-        for _ in range(gens + 1):
+        for g_ in range(gens + 1):
+            if swap_at is not None and g_ == swap_at:
+                s.SetMapper(getattr(zoo, mapname) if mapname != 'default' else zoo.serial)      # the map exchanged between two generations
             s.Step(strategy=getattr(ST, strat), CrossProbability=0.9, ScalingFactor=0.8)
             st = traj_state(s)
             out.append(st)
@@ -241,6 +244,14 @@ def run_de2_maps(rng, obs):
         nonid += n
         obs.event('nonidentity_completion_orders', n)
         obs.event('map_calls', len(zoo.orders))
+        if name in ('default', 'reversed', 'threads') and gens >= 3:
+            k = rng.randint(2, gens)
+            zoo2 = MapZoo(obs.seed + 13)
+            got2 = run(name, zoo2, swap_at=k)
+            first2 = next((i for i, (a, b) in enumerate(zip(got2, base)) if a != b), None)
+            obs.check(first2 is None, 'map:DE2 trajectory is independent of the order/parallelism of the supplied map', map=name, exchanged_at_generation=k,
+                      first_differing_generation=first2, strategy=strat, box=bool(box), field=None if first2 is None else next((q for q in got2[first2] if got2[first2][q] != base[first2][q]), None))
+            obs.event('map_exchanged_midrun')
     obs.nontrivial = nonid > 0
     obs.notes = {'nonidentity_completion_orders': nonid}
 
